@@ -17,8 +17,12 @@ from .session import TF_MIN
 class CandleDigestMonitor:
     """records what a strategy can read of every (symbol, timeframe) at every hook"""
 
+    def __init__(self, full_first=False):
+        self.full_first = full_first     # also a digest of the WHOLE readable array at the first hook (warm-up history)
+
     def session_begin(self, c, spec, full_candles):
         self.ex = spec['exchange']
+        self.first = True
         seen = set()
         self.pairs = []
         for r in spec['routes'] + spec['data_routes']:
@@ -36,8 +40,12 @@ class CandleDigestMonitor:
             try:
                 a = np.asarray(store.candles.get_candles(self.ex, sym, tf))
                 c.ev('candles', sym, tf, int(len(a)), a[-3:].tobytes().hex() if len(a) else '')
+                if self.full_first and self.first:
+                    import hashlib
+                    c.ev('candles_all', sym, tf, int(len(a)), hashlib.blake2b(np.ascontiguousarray(a).tobytes(), digest_size=12).hexdigest())
             except Exception as e:
                 c.ev('candles', sym, tf, 'raised', type(e).__name__)
+        self.first = False
 
 
 def _run_side(arg):
